@@ -22,8 +22,12 @@ Closed2 == \A x \in S2, b \in Bytes : N2(x, b) \in S2
 NoneR == <<"none">>
 
 (* C07 (i) an event or error puts the decoder back into its initial state (state 1) *)
+(* "back in its initial condition" = behaviourally equivalent to the initial state: same class of
+   the extracted automaton's Moore partition (computed generically by the harness), so that a
+   rendering that is not canonical cannot raise a false alarm *)
 ResyncBad(G, Out(_, _), Next(_, _), S) ==
-  { xb \in S \X Bytes : Out(xb[1], xb[2]) # NoneR /\ Next(xb[1], xb[2]) \notin {0, 1} }
+  { xb \in S \X Bytes : /\ Out(xb[1], xb[2]) # NoneR /\ Next(xb[1], xb[2]) # 0
+                         /\ G[Next(xb[1], xb[2])].cls # G[1].cls }
 C07_Resync1 == ReportAll(ResyncBad(G1, O1, N1, S1), LAMBDA xb :
    [prop |-> "C07", kind |-> "resync", comp |-> "set1", access |-> G1[xb[1]].access,
     input |-> xb[2], observed |-> O1(xb[1], xb[2]), post |-> G1[N1(xb[1], xb[2])].id])
